@@ -163,6 +163,15 @@ def run(ctx):
     from rules.c10 import delay_split_rule
     delay_split_rule(ctx, "R20.4")
 
+    # the open-process table is keyed by the case-folded definition name (definition names are case-insensitive)
+    ctx.rule("R20.5", "every access to the open-process table case-folds the definition name (casefold)")
+    from sa.norm import check_uniform, mapping_accesses
+    acc = mapping_accesses(temporal, lambda e: isinstance(e, ast.Name) and e.id == table_param)
+    check_uniform(ctx, "R20.5", acc, {"casefold"}, "the open-process table `%s`" % table_param,
+                  "an Onset or Offset that spells the definition name in another letter case does not find the open process: "
+                  "the process is never closed (or the Offset raises KeyError)")
+    ctx.floor("R20.5", "accesses of the open-process table", len(acc), 3)
+
     # popped events are ended
     vt = view(ctx, temporal)
     pops = []
